@@ -146,6 +146,12 @@ func globMatch(pat, s string) bool {
 // AddViolation records a violation; a listed known finding is only counted.
 // At most maxPerSig unlisted violations are kept per signature.
 func (r *Result) AddViolation(v *Violation) {
+	if v.Class == "task-panic" && strings.Contains(v.Sig, " []") {
+		// no marketstore frame on the panicking stack: the harness itself is at
+		// fault — trouble (exit 2), never a verdict about the property
+		r.Harness("seed %d: panic outside marketstore code: %s", v.Seed, v.Detail)
+		return
+	}
 	if k := matchKnown(v); k != nil {
 		r.KnownSeen[k.Sig+" :: "+k.What]++
 		return
